@@ -3,3 +3,11 @@ CLAIMS["C01"] = (
  "runtime monitor with reference model: in-memory Diff->Patch round trip judged by jd's Equals and an independent canonical form, on seeded random + exhaustive small workloads",
  "Held on every executed (a, b, option set) case: random structured pairs per option set, every array pair over a 3-letter alphabet up to length 4 (quick) / 5 (thorough) at four nesting positions, the FuzzJd corpus and void sides; a run is a finite sample of an unbounded space, with exhaustive strata marked as such.",
  TB, "DESIGN.md 5.1")
+CLAIMS["C04"] = (
+ "runtime monitor with reference model: Equals (both directions + reflexivity) judged by type-tagged canonical forms; hash-injectivity invariant over observed digests via the verif hook VerifHashCode",
+ "Held on every executed pair: constructed equal / reordered / duplicated / near-miss / mutated / independent pairs under list, SET, MULTISET, SetKeys and four Precision values; every ordered pair of 40 type-confusable atoms at 4 wrappings (exhaustive); number/8-byte-string alias pairs (known finding F8); 64-bit digest table over all sub-values with public-API confirmation of suspects.",
+ TB + "; real FNV collisions between unrelated values are unreachable by any run", "DESIGN.md 5.4")
+CLAIMS["C05"] = (
+ "runtime monitor with reference model: len(Diff)==0, Equals and an independent oracle compared pairwise; exit status of the three real binaries observed as processes",
+ "Held on every executed (a, b, option set) incl. MERGE combinations and Precision at root / under keys / in arrays, the confusable atoms exhaustively, and on sampled CLI runs of v2/jd, jd and jd -v2=false (exit 0 iff oracle-equal).",
+ TB, "DESIGN.md 5.5")
